@@ -116,22 +116,27 @@ Problems == {<<ks, rf, order, ic>> : ks \in UNION {[1..n -> Kinds] : n \in 1..Ma
 
 Solvers == {"SolveUnc", "SolveExp2", "SolveExp1"}
 Reps == {[solver |-> s, mform |-> mf, coupling |-> c, pre_eig |-> pe, rbgiven |-> rg, layout |-> lay] :
-            s \in Solvers, mf \in {"none", "vec", "mat"}, c \in {"diag", "coupled"}, pe \in BOOLEAN,
+            s \in Solvers, mf \in {"none", "vec", "mat"}, c \in {"diag", "coupled", "kcoupled"}, pe \in BOOLEAN,
             rg \in BOOLEAN, lay \in {"contiguous", "interleaved", "rffirst"}}
 
+\* couplings: "diag" (all matrices diagonal), "coupled" (mass, damping and stiffness full on the elastic block), "kcoupled" (a DIAGONAL,
+\* non-uniform mass handed over as a vector next to full damping and stiffness - the mass form that makes the modal pre-transformation
+\* weight physical initial conditions by a vector)
+IsCoupled(r) == r.coupling \in {"coupled", "kcoupled"}
 HasRb(p) == \E i \in 1..Len(p[1]) : IsRb(p[1][i])
 NEl(p) == Cardinality({i \in 1..Len(p[1]) : ~IsRb(p[1][i])})
 \* the documented domain of each representation
 Legal(p, r) ==
   /\ (r.coupling = "coupled" => (NEl(p) >= 2 /\ r.mform # "vec"))          \* coupling needs two elastic equations, full matrices
-  /\ (r.mform = "vec" => r.coupling = "diag")
-  /\ (r.pre_eig => (r.coupling = "coupled" /\ r.mform = "mat" /\ ~p[2] /\ r.layout = "contiguous"))
+  /\ (r.coupling = "kcoupled" => (NEl(p) >= 2 /\ r.mform = "vec" /\ ~HasRb(p)))
+  /\ (r.mform = "vec" => r.coupling \in {"diag", "kcoupled"})
+  /\ (r.pre_eig => (((r.coupling = "coupled" /\ r.mform = "mat") \/ r.coupling = "kcoupled") /\ ~p[2] /\ r.layout = "contiguous"))
                                                  \* pre_eig: symmetric full matrices; modal order is the eigen-solver's
   /\ (r.solver = "SolveExp1" => (~p[2] /\ ~r.pre_eig /\ ~r.rbgiven /\ r.layout = "contiguous" /\ ~IcRule[p[4]][3]))
   /\ (r.rbgiven => HasRb(p))
   \* SolveUnc's coupled (complex eigenvalue) path is graded by eigenvector conditioning: (nearly) repeated roots with one
   \* eigenvector are outside its domain; SolveExp2 and the uncoupled path are not restricted
-  /\ ((r.solver = "SolveUnc" /\ r.coupling = "coupled") => \A i \in 1..Len(p[1]) : ~NearDefective(p[1][i]))
+  /\ ((r.solver = "SolveUnc" /\ IsCoupled(r)) => \A i \in 1..Len(p[1]) : ~NearDefective(p[1][i]))
   /\ (r.layout = "interleaved" => (Len(p[1]) + (IF p[2] THEN 1 ELSE 0) >= 2 /\ ~r.pre_eig))
   \* "rffirst": problem order kept, the residual-flexibility equation placed in FRONT of every other equation
   \* static initial conditions solve K_el x = F on the equations NOT declared rigid-body: a damped rigid-body equation that is neither
